@@ -170,7 +170,7 @@ func vFindTagged(ff FeatureSlice, tag string) (Feature, int) {
 }
 
 //verif:harness prop=C02 quick=6 thorough=12 merge=concrete timeout=1500
-//verif:bounds API level: gts.Insert and gts.Embed with a host of length 0..3 and a guest of length 0..2 (symbolic residues, every insertion index incl. 0 and len(host)); host table: source + one feature (range/point/between | 2-part join | complemented range | 2-part order, symbolic coordinates and flags); guest table: one range, point or between-site with symbolic coordinates (an empty guest carries a site)
+//verif:bounds API level: gts.Insert and gts.Embed with a host of length 0..3 and a guest of length 0..2 (symbolic residues, every insertion index incl. 0 and len(host); host residues with len==cap or in a buffer with spare capacity; followed by a second insertion of the same guest at an independent index into the same host: placed exactly again, first result unchanged); host table: source + one feature (range/point/between | 2-part join | complemented range | 2-part order, symbolic coordinates and flags); guest table: one range, point or between-site with symbolic coordinates (an empty guest carries a site)
 func VH_C02_insert_api() {
 	sh := vShard(6 + 6*vTier())
 	embed := sh%2 == 1
@@ -181,6 +181,16 @@ func VH_C02_insert_api() {
 	}
 	G := vChoice("G", 3)
 	hdata, gdata := vBytes("h", L), vBytes("g", G)
+	// the host's residues may sit in a buffer with room to spare (what every result of an earlier edit has)
+	if vBool("h.spare") {
+		buf := make([]byte, L, L+G+2)
+		copy(buf, hdata)
+		hdata = buf
+	}
+	h0 := make([]int, L)
+	for k := range h0 {
+		h0[k] = int(hdata[k])
+	}
 	hff := FeatureSlice{}
 	var hloc Location
 	if L > 0 {
@@ -276,5 +286,34 @@ func VH_C02_insert_api() {
 		}
 	}
 	vAssert("arguments-unchanged", vAnd(len(host.Bytes()) == L, len(guest.Bytes()) == G))
+	// a second insertion into the same host, elsewhere: the host is still the host (its residues were not
+	// written through by the first call), and the first result still reads as it did
+	first := make([]int, len(got))
+	for k := range first {
+		first[k] = int(got[k])
+	}
+	i2 := vChoice("i2", L+1)
+	var out2 Sequence
+	if embed {
+		out2 = Embed(host, i2, guest)
+	} else {
+		out2 = Insert(host, i2, guest)
+	}
+	got2 := out2.Bytes()
+	vAssert("second-length", len(got2) == L+G)
+	if len(got2) == L+G {
+		for k := 0; k < i2; k++ {
+			vAssert("second-host-prefix", int(got2[k]) == h0[k])
+		}
+		for k := 0; k < G; k++ {
+			vAssert("second-guest-placed", got2[i2+k] == gdata[k])
+		}
+		for k := i2; k < L; k++ {
+			vAssert("second-host-suffix", int(got2[G+k]) == h0[k])
+		}
+	}
+	for k := range first {
+		vAssert("first-result-stable", int(out.Bytes()[k]) == first[k])
+	}
 	vObserve("outlen", len(got))
 }
